@@ -18,6 +18,8 @@ def make_generator(c):
         kw = {}
         if rar is not None:
             kw = dict(rar_parameters=dict(rar), nt_start=c["nt_start"])
+        elif c.get("nt_start") is not None:
+            kw = dict(nt_start=c["nt_start"])  # documented as ignored when refinement is off
         return jinns.data.DataGeneratorODE(key, c["nt"], c["tmin"], c["tmax"], c["bt"],
                                            method=c.get("method", "uniform"), **kw)
     common = dict(
@@ -28,14 +30,19 @@ def make_generator(c):
     )
     if rar is not None:
         common.update(rar_parameters=dict(rar), n_start=c["n_start"])
+    elif c.get("n_start") is not None:
+        common.update(n_start=c["n_start"])  # documented as ignored when refinement is off
     if kind == "statio":
         return jinns.data.CubicMeshPDEStatio(**common)
     if kind == "nonstatio":
-        if rar is not None:
+        if rar is not None or c.get("nt_start") is not None:
             common.update(nt_start=c["nt_start"])
+        cart = bool(c.get("cartesian", True))
+        if c.get("cartesian_np"):
+            cart = np.bool_(cart)  # the option as a numpy boolean (e.g. the result of a numpy comparison)
         return jinns.data.CubicMeshPDENonStatio(
             nt=c["nt"], temporal_batch_size=c["bt"], tmin=c["tmin"], tmax=c["tmax"],
-            cartesian_product=bool(c.get("cartesian", True)), **common)
+            cartesian_product=cart, **common)
     raise KeyError(kind)
 
 
